@@ -518,6 +518,12 @@ class BuiltinMixin:
 
     def str_split(self, s, args, kwargs, st):
         t = to_term(s)
+        if len(args) == 1 and args[0] == "," and not kwargs:
+            # comma split: named by ghost functions of the text (tokens contain no comma; empty tokens are possible);
+            # the same functions name the result of ",".join(tokens)
+            from .values import CSV_LEN, CSV_ARR
+            self.assume_here(st, CSV_LEN(t) >= 1)
+            return SList(TStr, CSV_LEN(t), CSV_ARR(t))
         if len(args) == 2 and args[1] == 1 and isinstance(args[0], str) and len(args[0]) == 1:
             # s.split(sep, 1): [s] if sep not in s else [before first sep, after it]
             sep = z3.StringVal(args[0])
